@@ -404,3 +404,36 @@ Definition ae_set_first_wins (st : av) (v : goerr) : av * bool :=
 Theorem first_set_wins_breaks_set_contract :
   exists st v, v <> None /\ same_type st v = true /\ ae_load (fst (ae_set_first_wins st v)) <> v.
 Proof. exists (Some (dyn_of_code 1008)), (goerr_of (Some 1018)). vm_compute. repeat split; congruence. Qed.
+
+(* Seeded change C10-11: MapReduceVoid drops its `cancelled` flag and the cancel wrappers; its
+   adapter reducer calls the user's void reducer and then writer.Write(struct{}{}) - a placeholder
+   output.  In the LTS that variant is a call whose reducer script is the user's void reducer
+   followed by one Write (the placeholder, 0), with (placeholder, nil) read as nil.  The reducer's
+   RETURN then decides the result: a void reducer that returns before its pipe is closed (one
+   receive here) makes the caller commit to the placeholder; the second mapper, still running,
+   cancels afterwards - the cancel is executed (g_cancels), the call returns nil.  Today's adapter
+   (no Write after the user's reducer: ProofsV.void_commit_l, Props.void_result_is_cancel_error_or_nil)
+   returns the cancel error under the same schedule. *)
+Definition c1011_cfg (red : list uact) : config :=
+  mkCfg VFixed false 2%nat [USend 1; USend 2]
+        (fun x => if x =? 1 then [UWrite 10] else [UCancel (Some 5)]) red false.
+(* both mappers spawned; mapper 1 writes; the void reducer receives one value and returns; the
+   adapter's placeholder Write; the caller takes it *)
+Definition c1011_open : list label := rep 12 [LGen; LExec false] ++ rep 2 [LMap 0] ++ rep 4 [LRed] ++ [LMain BOut].
+Definition c1011_rest : list label := rep 20 (LMain BOut :: others).
+
+Theorem seed_c10_11_placeholder_write_loses_cancel :
+  let c := c1011_cfg [URecv; UWrite 0] in
+  let s1 := run c (init c) c1011_open in
+  let s2 := run c s1 c1011_rest in
+  (mainpc s1 = MDefer (OVal 0) /\ g_cancels s1 = [] /\ redpc s1 = Gate [])
+  /\ result s2 = Some (OVal 0) /\ g_cancels s2 = [ECancel 5] /\ clean s2 = true.
+Proof. vm_compute. repeat split; reflexivity. Qed.
+
+Example todays_void_adapter_returns_the_cancel_error :
+  let c := c1011_cfg [URecv] in
+  let s1 := run c (init c) c1011_open in
+  let s2 := run c s1 c1011_rest in
+  (mainpc s1 = MSelect /\ redpc s1 = Epi None)        (* the reducer has returned; nothing is decided *)
+  /\ result s2 = Some (OErr (ECancel 5)) /\ g_cancels s2 = [ECancel 5] /\ clean s2 = true.
+Proof. vm_compute. repeat split; reflexivity. Qed.
